@@ -70,7 +70,6 @@ DESC = [
     (r"^C28/duplicate-field-number/", "field tags of sibling fields / oneof members collide (same hash) and are emitted", "protogen fieldTag"),
     (r"^C28/duplicate-field-name/oneof-member\+sibling-field$", "a oneof member <field>_<type> of a union leaf has the name of a sibling field", "protogen; witness: leaf u (union) next to leaf u_string"),
     (r"^C28/duplicate-field-name/list-key-message:two-key-fields$", "two keys of a multi-key list whose names differ only in '-' / '_' / '.' get the same field name in the <List>Key message", "protogen genListKeyProto; witness: list with keys delta-id and delta_id"),
-    (r"^C28/duplicate-field-name/sibling-fields$", "sibling leaves whose names sanitise to the same identifier collide (seen for random schemas only)", "protogen"),
     (r"^C28/enum-value-lost/", "identity/enum values are lost when their value numbers collide or hit 0/-1", "protogen"),
     (r"^C28/enum-first-not-zero/", "a YANG enum with a negative value makes the first proto enum value non-zero", "protogen"),
     (r"^C28/enum-value-out-of-range/", "YANG enum value 2147483647 overflows the proto enum range after the +1 shift", "protogen"),
